@@ -40,6 +40,8 @@ func main() {
 		code = cmdList(os.Args[2:])
 	case "writes":
 		code = cmdWrites(os.Args[2:])
+	case "memo":
+		code = cmdMemo(os.Args[2:])
 	default:
 		fmt.Fprintln(os.Stderr, "unknown command")
 		code = 2
@@ -61,6 +63,9 @@ func loadAll() (*Global, error) {
 
 // buildScript assembles the SMT query for one obligation.
 func (o *Obligation) script() string {
+	if o.Raw != "" {
+		return o.Raw
+	}
 	vc := o.vc
 	var sb strings.Builder
 	sb.WriteString(preamble)
@@ -165,7 +170,13 @@ func (o *Obligation) script() string {
 	if !o.Cover {
 		sb.WriteString("(assert (not " + o.Goal + "))\n")
 	}
-	return sb.String()
+	body := sb.String()
+	if strings.Contains(body, "ref.root") {
+		// the allocation-root function is only declared (with its axiom) when the query mentions it
+		i := strings.Index(body, preamble) + len(preamble)
+		body = body[:i] + rootAxioms + body[i:]
+	}
+	return body
 }
 
 var builtinSym = map[string]bool{"and": true, "or": true, "not": true, "ite": true, "select": true, "store": true, "forall": true, "exists": true,
@@ -356,6 +367,34 @@ func (g *Global) runUnitOpts(u *Unit, timeout int, workers chan struct{}, ro run
 	}
 	res.Seconds = time.Since(start).Seconds()
 	return res
+}
+
+// solveRaw discharges obligations that come with their own script.
+func solveRaw(obls []*Obligation, timeout int, workers chan struct{}) {
+	var wg sync.WaitGroup
+	for _, o := range obls {
+		wg.Add(1)
+		go func(o *Obligation) {
+			defer wg.Done()
+			workers <- struct{}{}
+			defer func() { <-workers }()
+			o.Result = solve(o.Raw, timeout, []string{"z3-new", "cvc5"})
+			switch o.Result.Status {
+			case "unsat":
+				o.Status = "discharged"
+			case "sat":
+				o.Status = "failed"
+			default:
+				o.Status = "undecided"
+			}
+			if o.Class == "memo-class" {
+				o.Status = "failed"
+				o.Result.Status = "sat"
+				o.Result.Output = "the function calls the build cache but declares no value class"
+			}
+		}(o)
+	}
+	wg.Wait()
 }
 
 // finishAxioms evaluates the user axioms that mention spec functions used by this function.
@@ -558,6 +597,9 @@ func cmdCheck(args []string) int {
 		return 1
 	}
 	units := g.C.unitsForProp(*prop)
+	if *prop == "C13" && len(units) == 0 {
+		units = append(units, &Unit{Pkg: "", Func: "build-cache-keys", Props: []string{"C13"}, Opts: map[string]bool{"virtual": true}, Loops: map[int]*LoopSpec{}})
+	}
 	sweepClaim := map[string]bool{}
 	if *prop == "C07" {
 		units = append(units, g.sweepUnits()...)
@@ -626,6 +668,11 @@ func cmdCheck(args []string) int {
 			}
 		}
 		results = rs
+	}
+	if *prop == "C13" {
+		mo := g.memoObligations()
+		solveRaw(mo, timeout, workers)
+		results = append(results, &unitResult{Unit: &Unit{Pkg: "", Func: "build-cache-keys", Props: []string{"C13"}, Opts: map[string]bool{}}, VC: &FnVC{}, Obls: mo})
 	}
 	sweepInv := map[string]map[int][]string{}
 	var sweepDischarged []string
@@ -1042,6 +1089,33 @@ func cmdWrites(args []string) int {
 					}
 				}
 			}
+		}
+	}
+	return 0
+}
+
+func cmdMemo(args []string) int {
+	g, err := loadAll()
+	if err != nil {
+		fmt.Fprintln(os.Stderr, err)
+		return 2
+	}
+	for _, s := range g.findMemoSites() {
+		c := &termCtx{suffix: "", decls: map[string]string{}, memo: map[ssa.Value]string{}, fn: s.fn, g: g}
+		fmt.Printf("site %s class=%q key=%s\n", s.name(g), s.class, c.term(s.key, 0))
+		if s.closure != nil {
+			for _, in := range closureInputs(s.closure) {
+				fmt.Printf("      input %s\n", in(c))
+			}
+		}
+	}
+	obls := g.memoObligations()
+	solveRaw(obls, 10, make(chan struct{}, 8))
+	for _, o := range obls {
+		fmt.Printf("  %-11s %-7s %5.2fs %s\n", o.Status, o.Result.Solver, o.Result.Seconds, o.Name)
+		if len(args) > 0 && strings.Contains(o.Name, args[0]) {
+			fmt.Println(o.Raw)
+			fmt.Println(firstLines(o.Result.Output, 30))
 		}
 	}
 	return 0
